@@ -337,6 +337,12 @@ def c14_aged_gen(rng, tier):
             for age in (1000, 2900, 3100, 4800, 5300, 5900, 6100, 8000):
                 add(tr, age, n=3)
             add(tr, 8000, tick=900)
+        # udp: the pooled socket lives for one minute of silence; an exchange in flight while the silence passes the
+        # 10 s default idle time-out of the other transports is neither cut off nor sent twice
+        out.append("g%d tr=udp age=12000 tick=0 n=2" % len(out))
+        out.append("g%d tr=udp age=30000 tick=0 n=2" % len(out))
+        out.append("g%d tr=udp age=9000 tick=0 n=1 dl=4000 delay=2000" % len(out))
+        out.append("g%d tr=udp age=8500 tick=0 n=2 dl=4000 delay=2500" % len(out))
     return out
 
 
@@ -352,6 +358,13 @@ def c14_aged_oracle(line, res):
         return ("c14-aged-connection: healthy server, the pooled connection is %s ms old (below the idle time-out), "
                 "but %d of %d exchanges failed; new connections seen by the server: %s (%s)"
                 % (f["age"], s.count("E"), len(s), r.get("acc"), res))
+    if f["tr"] == "udp" and int(f["age"]) < 55000:
+        if "qs" in r and int(r["qs"]) > len(s):
+            return ("c14-udp-query-duplicated: %d exchanges after the pause, but the server received %s query datagrams: "
+                    "an exchange in flight was cut off by an idle time-out and sent again (%s)" % (len(s), r["qs"], res))
+        if int(f["age"]) >= 10000 and r.get("acc") not in (None, "0"):
+            return ("c14-udp-socket-not-reused: after %s ms of silence (below the one minute idle time-out of a udp "
+                    "upstream) the exchange came from a NEW socket (%s)" % (f["age"], res))
     return None
 
 
@@ -418,6 +431,91 @@ def c14_dup_classify(line, res):
                                    "ok" if r.get("first") == "REPLY" and set(r.get("after", "E")) <= set("R-") else "failed")
 
 
+
+# ---------------------------------------------------------------- round 4: kind "streams"
+# exchanges abandoned at their deadline on one multiplexed connection whose peer allows m concurrent streams
+def c14_streams_gen(rng, tier):
+    out = []
+
+    def add(tr, m, k, fault, conc, after=3):
+        out.append("t%d tr=%s m=%d k=%d fault=%s conc=%d dl=%d after=%d" % (len(out), tr, m, k, fault, conc,
+                                                                            rng.choice([250, 300, 350]), after))
+
+    for _ in range(budget(tier, 1, 8)):
+        for tr in ("doq", "doh"):
+            for fault in ("lie", "silent"):
+                m = rng.choice([2, 3, 4])
+                add(tr, m, m, fault, 0)                                  # exactly the limit, one after the other
+                add(tr, m, m + rng.choice([1, 2, 4]), fault, rng.choice([0, 1]))
+                add(tr, rng.choice([4, 6]), rng.choice([1, 2, 3]), fault, 1)   # below the limit
+            add(tr, 4, 8, rng.choice(["lie", "silent"]), 1, after=rng.choice([1, 5]))
+    return out
+
+
+def c14_streams_oracle(line, res):
+    f = gens.fields(line)
+    r = _res(res)
+    bad, after = r.get("bad", ""), r.get("after", "")
+    if r.get("late") == "1" or "H" in bad + after or "L" in bad + after:
+        return "c14-late: an exchange returned later than its deadline + 1.5 s (%s)" % res
+    if after == "" or any(c not in "RE" for c in bad + after):
+        return "c14-bad-result %s" % res
+    if "E" in after:
+        return ("c14-stream-capacity-leaked: %s exchanges were abandoned at their deadline (%s) on a connection whose "
+                "peer allows %s concurrent streams; afterwards the server answers every query, but %d of %d exchanges "
+                "failed (%s)" % (f["k"], f["fault"], f["m"], after.count("E"), len(after), res))
+    return None
+
+
+def c14_streams_compare(ir, mr):
+    a, b = _res(ir), _res(mr)
+    return a.get("bad") == b.get("bad") and a.get("after") == b.get("after")
+
+
+def c14_streams_classify(line, res):
+    f = gens.fields(line)
+    k, m = int(f["k"]), int(f["m"])
+    return "%s/%s/%s/%s" % (f["tr"], f["fault"], "below" if k < m else ("limit" if k == m else "above"),
+                            "ok" if set(_res(res).get("after", "E")) <= set("R") else "failed")
+
+
+# ---------------------------------------------------------------- round 4: kind "stall"
+# the server accepts and never reads; the upstream is built by the router's initUpstream (socket.so_sndbuf small)
+def c14_stall_gen(rng, tier):
+    out = []
+
+    def add(tr, n, pad, sndbuf, srv):
+        out.append("w%d tr=%s n=%d pad=%d sndbuf=%d dl=6000 srv=%s" % (len(out), tr, n, pad, sndbuf, srv))
+
+    for _ in range(budget(tier, 1, 4)):
+        for tr in ("tcpp", "tlsp"):
+            add(tr, rng.choice([24, 32, 48]), 4000, 4096, "one")
+            add(tr, rng.choice([12, 16]), rng.choice([2000, 8000]), rng.choice([4096, 8192]), "one")
+        add(rng.choice(["tcpp", "tlsp"]), 24, 4000, 4096, "all")       # known finding K8
+        for tr in ("tcp", "tls"):
+            add(tr, 6, 4000, 4096, rng.choice(["one", "all"]))
+    return out
+
+
+def c14_stall_oracle(line, res):
+    f = gens.fields(line)
+    r = _res(res)
+    if r.get("res") == "HANG" or r.get("late") == "1":
+        return ("c14-late: the server accepted the connection and stopped reading; %s of the %s exchanges (deadline %s "
+                "ms) were not back %s ms after their start - a Write blocked in the kernel is not ended in time (%s)"
+                % (("some", f["n"], f["dl"], int(f["dl"]) + 1500, res)))
+    if r.get("res") not in ("ERR", "REPLY", "MIXED"):
+        return "c14-bad-result %s" % res
+    return None
+
+
+def c14_stall_compare(ir, mr):
+    a, b = _res(ir), _res(mr)
+    if b.get("res") == "ANY":      # known finding K8: late or not, depending on how the retries are spread
+        return True
+    return a.get("res") == b.get("res") and a.get("late") == b.get("late")
+
+
 PROPS["C14"] = dict(
     kinds=[dict(name="faults", gen=c14_gen, oracle=c14_oracle, compare=c14_compare, classify=c14_classify,
                 nontrivial=lambda l, r: True, timeout=900),
@@ -429,7 +527,12 @@ PROPS["C14"] = dict(
            dict(name="dup", gen=c14_dup_gen, oracle=c14_dup_oracle, compare=c14_dup_compare,
                 classify=c14_dup_classify, nontrivial=lambda l, r: True, timeout=600),
            dict(name="aged", gen=c14_aged_gen, oracle=c14_aged_oracle, compare=c14_aged_compare,
-                classify=c14_aged_classify, nontrivial=lambda l, r: True, timeout=900)],
+                classify=c14_aged_classify, nontrivial=lambda l, r: True, timeout=900),
+           dict(name="streams", gen=c14_streams_gen, oracle=c14_streams_oracle, compare=c14_streams_compare,
+                classify=c14_streams_classify, nontrivial=lambda l, r: True, timeout=600),
+           dict(name="stall", gen=c14_stall_gen, oracle=c14_stall_oracle, compare=c14_stall_compare,
+                classify=lambda l, r: "%s/%s/%s" % (gens.fields(l)["tr"], gens.fields(l)["srv"], _res(r).get("res")),
+                nontrivial=lambda l, r: True, timeout=600)],
     rule="one scripted exchange of a real upstream.NewUpstream (udp, tcp, tcp+pipeline, tls, tls+pipeline, https/h2, quic) "
          "against a fake loopback server (DoQ: quic-go server): refuse / black-hole dial / accept-and-close / silent / half frame / garbage / "
          "FIN / RST on fresh connections, and on pooled connections while idle or at their next use, incl. k = 1, 5, 6, "
